@@ -4,8 +4,15 @@ Property theorems over the model of `Model.lean` (exact rational arithmetic).  E
 all objective functions (`Objective` is arbitrary: any gradient, any curvature, any Hessian-on-ones, any set of
 non-identifiable voxels), all parameters and all sub-iteration numbers unless a hypothesis says otherwise.
 Images are lists; `l[j]?` is voxel `j`.
+
+Because `Objective` is arbitrary, every theorem about `updateEstimate` / `loop` / `setUp` below applies in particular to
+`Problem.toObjective q` for the extended `Problem` of `Model.lean`: Poisson log-likelihood with bin normalisation factors
+(`Row.norm`), time-of-flight bins (one `Row` per TOF bin), `zero_seg0_end_planes` (`Row.zeroed`), with or without
+`use_subset_sensitivities` (`Problem.setUpOk` feeds `Objective.setUpOk`, the only new thing `setUp` looks at), and the
+sensitivity of a non-TOF back projector (`Problem.sensRows`).  The harness exercises exactly these configurations against
+the real code; the theorems did not have to be re-proved or weakened for them.
 -/
-import StirVerif.C08.ProofsMask
+import StirVerif.C08.ProofsExt
 
 namespace StirVerif.C08
 
@@ -46,7 +53,9 @@ theorem C08_denominator_used (obj : Objective) (x d : Img) :
   · rw [denomStored_first, denomUsed_first]; rfl
 
 /-- after set_up (denominator not given by the user) the stored denominator is minus the approximate Hessian (without
-    penalty) applied to the uniform image -/
+    penalty) applied to the uniform image.  (For `Problem.toObjective` that is `Problem.hessOnes`: with normalisation the
+    data enter as `y·n²`, every TOF bin is a row, and — as in the code — the end planes of segment 0 take part even when
+    `zero_seg0_end_planes` removes them from gradient and sensitivity: `C08_denominator_includes_zeroed_end_planes`.) -/
 theorem C08_denominator_after_setup (p : Params) (obj : Objective) (start : Int) (target img d : Img)
     (h : setUp p obj start target = some (img, d)) (hd : p.denominatorOnes = false) : d = obj.hessOnes.map (fun a => -a) := by
   have := (setUp_some p obj start target img d h).1
@@ -374,5 +383,122 @@ example : ∀ m : Nat, 1 ≤ m →
       = loop witParams witObjPrior 1 m (loop witParams witObjPrior 1 1 ⟨[5, 1], [0, 1], 1⟩) :=
   (C08_restart_eq witParams witObjPrior [5, 1] [5, 1] [0, 1] 1 (le_refl _)
     (by simp [setUp, precomputeDenominator, witParams, witObjPrior]) rfl (fun _ _ _ _ => rfl) (Or.inl rfl)).2
+
+/-! ## extensions: filters after the clamp, denominator from file, zeroed end planes -/
+
+/-- "Iterates therefore always lie within [0, upper bound]" for the iterates `reconstruct` hands out and saves, i.e. AFTER
+    `end_of_iteration_processing` has applied the inter-iteration filter (every `inter_iteration_filter_interval`
+    sub-iterations) and the post filter (after the last sub-iteration): true for every run when both image processors map
+    `[0, ub]ⁿ` into itself (`Filters.Preserve`) — OSSPS does not clamp again after filtering. -/
+theorem C08_in_bounds_after_filters (f : Filters) (p : Params) (obj : Objective) (start : Int) (s : State) (n : Nat)
+    (hub : 0 ≤ p.upperBound) (hf : f.Preserve p.upperBound) :
+    ∀ v ∈ (loopF f p obj start (n + 1) s).image, 0 ≤ v ∧ v ≤ p.upperBound :=
+  loopF_inBox f p obj start n s hub hf
+
+/-- the real `SeparableConvolutionImageFilter` with three non-negative taps of sum ≤ 1 in y and x (zero boundary) is such a
+    processor, for every image size and every upper bound ≥ 0 -/
+theorem C08_smoothing_filter_preserves_bounds (ny nx : Nat) (cm c0 cp ub : Rat) (hcm : 0 ≤ cm) (hc0 : 0 ≤ c0) (hcp : 0 ≤ cp)
+    (hsum : cm + c0 + cp ≤ 1) (hub : 0 ≤ ub) (x : Img) (hx : ∀ v ∈ x, 0 ≤ v ∧ v ≤ ub) :
+    ∀ v ∈ sepConvYX ny nx cm c0 cp x, 0 ≤ v ∧ v ≤ ub :=
+  sepConvYX_inBox ny nx cm c0 cp ub hcm hc0 hcp hsum hub x hx
+
+/-- without filters the loop with `end_of_iteration_processing` is the plain loop: every theorem above about `loop` is about
+    `loopF {}` -/
+theorem C08_no_filters (p : Params) (obj : Objective) (start : Int) (n : Nat) (s : State) :
+    loopF {} p obj start n s = loop p obj start n s :=
+  loopF_noFilters p obj start n s
+
+/-- the hypothesis `Filters.Preserve` is needed: a sharpening kernel (negative side lobes: -1/8, 5/4, -1/8) applied after the
+    clamp takes the in-bounds image `[1, 0, 1]` (upper bound 1) to `[25/16, -5/16, 25/16]` — below 0 and above the upper bound —
+    and `end_of_iteration_processing` hands that out as the iterate (the harness sees the real code do this) -/
+theorem C08_in_bounds_fails_after_sharpening_filter :
+    endOfIteration { interInterval := 1, inter := some (sepConvYX 1 3 (-1 / 8) (5 / 4) (-1 / 8)) } 5 2 [1, 0, 1]
+      = [25 / 16, -5 / 16, 25 / 16] := by
+  simp [endOfIteration, applyInterFilter, applyPostFilter, sepConvYX, conv3Axis, List.range, List.range.loop]
+  norm_num
+
+/-- "resuming from a saved iterate reproduces the uninterrupted run", resume variant `precomputed denominator := <file>` with the
+    file `<prefix>_precomputed_denominator` that the uninterrupted run's `set_up` wrote (`d0`, read back with the characteristics
+    of the image): `set_up` of the resumed run accepts the file, leaves the saved image alone, and from its first sub-iteration
+    on the resumed run is in exactly the state of the uninterrupted run.  Same side conditions as `C08_restart_eq`. -/
+theorem C08_restart_eq_saved_denominator (p : Params) (obj : Objective) (target img0 d0 : Img) (k : Nat) (hk : 1 ≤ k)
+    (hset : setUp p obj 1 target = some (img0, d0)) (hden : p.denominatorOnes = false)
+    (hcurv : obj.priorIsZero = false → obj.curvDepends = false → ∀ a b, obj.curv a = obj.curv b)
+    (hpos : p.enforceInitialPositivity = false ∨ ∀ v ∈ (loop p obj 1 k ⟨img0, d0, 1⟩).image, 0 < v)
+    (tc fc : Chars) (hsame : sameCharacteristics fc tc = true) :
+    setUpFile p obj ((k : Int) + 1) tc (.image fc d0) (loop p obj 1 k ⟨img0, d0, 1⟩).image
+        = some ((loop p obj 1 k ⟨img0, d0, 1⟩).image, d0) ∧
+    ∀ m : Nat, 1 ≤ m →
+      loop p obj ((k : Int) + 1) m ⟨(loop p obj 1 k ⟨img0, d0, 1⟩).image, d0, (k : Int) + 1⟩
+        = loop p obj 1 m (loop p obj 1 k ⟨img0, d0, 1⟩) := by
+  obtain ⟨h1, h2⟩ := C08_restart_eq p obj target img0 d0 k hk hset hden hcurv hpos
+  exact ⟨setUpFile_of_setUp p obj _ tc fc _ _ d0 d0 h1 hsame, h2⟩
+
+/-- a denominator file is used only if it can be read and has the characteristics of the image (origin within 0.01 mm, same
+    index range, grid spacing within 10⁻⁴ relative): otherwise `set_up` refuses — whatever the other parameters;
+    and when `set_up` succeeds the denominator is the file's content, nothing is computed -/
+theorem C08_denominator_file (p : Params) (obj : Objective) (start : Int) (tc fc : Chars) (target v : Img) :
+    (sameCharacteristics fc tc = false → setUpFile p obj start tc (.image fc v) target = none) ∧
+    setUpFile p obj start tc .unreadable target = none ∧
+    (∀ img d, setUpFile p obj start tc (.image fc v) target = some (img, d) →
+        d = v ∧ sameCharacteristics fc tc = true ∧ ∃ d', setUp p obj start target = some (img, d')) := by
+  refine ⟨fun hc => (setUpFile_refused p obj start tc fc target v hc).1, ?_, ?_⟩
+  · unfold setUpFile
+    cases setUp p obj start target <;> simp
+  · intro img d h
+    obtain ⟨fc', d', hfile, hc, hs⟩ := setUpFile_some p obj start tc _ target img d h
+    cases hfile
+    exact ⟨rfl, hc, d', hs⟩
+
+/-- characteristics of the 5×5×3 image of 40 mm voxels of the harness' fixed case, and of files that differ from it -/
+def witChars : Chars := { origin := [0, 0, 0], range := [0, 2, -2, 2, -2, 2], spacing := [2, 40, 40] }
+
+/-- `has_same_characteristics` as the code has it: identical → yes; origin 1/256 mm off → yes (inside the 0.01 mm tolerance);
+    origin 0.5 mm off → no; one voxel more → no; voxels 1.5 times as large → no; voxel size 2⁻¹⁶ relative off → yes -/
+theorem C08_same_characteristics_examples :
+    sameCharacteristics witChars witChars = true ∧
+    sameCharacteristics { witChars with origin := [0, 0, 1 / 256] } witChars = true ∧
+    sameCharacteristics { witChars with origin := [0, 1 / 2, 0] } witChars = false ∧
+    sameCharacteristics { witChars with range := [0, 2, -2, 3, -2, 3] } witChars = false ∧
+    sameCharacteristics { witChars with spacing := [2, 60, 60] } witChars = false ∧
+    sameCharacteristics { witChars with spacing := [2, 40 + 40 / 65536, 40 + 40 / 65536] } witChars = true := by
+  refine ⟨?_, ?_, ?_, ?_, ?_, ?_⟩ <;>
+  · simp [sameCharacteristics, witChars, normSq, originTolerance, spacingTolerance]
+    try norm_num
+
+/-- one voxel, two bins of one subset seeing it with weight 1, both with 2 counts; the second bin lies in an end plane of
+    segment 0 and `zero_seg0_end_planes` is set -/
+def witZeroed : Problem :=
+  { nz := 1, ny := 1, nx := 1, numSubsets := 1, numViewgrams := 2, prior := none, priorNotParabolic := false,
+    rows := #[{ vg := 0, subset := 0, y := 2, add := 0, elems := [(0, 1)] },
+              { vg := 1, subset := 0, y := 2, add := 0, elems := [(0, 1)], zeroed := true }] }
+
+/-- the clause "D = minus the approximate log-likelihood Hessian applied to a uniform image" FAILS for the code as it is when
+    `zero_seg0_end_planes` is set (known finding `denominator:includes-zeroed-seg0-end-planes`): gradient and sensitivity of the
+    objective function leave the zeroed bin out (gradient at x = 1: 2/1 - 1 = 1, sensitivity 1: one bin), but the denominator
+    counts it (1/2 + 1/2 = 1 instead of 1/2: the Hessian of the one-bin objective on the uniform image) -/
+theorem C08_denominator_includes_zeroed_end_planes :
+    witZeroed.gradLik 0 #[1] = #[1] ∧ witZeroed.sensitivity = #[1] ∧ witZeroed.hessOnes = #[-1] ∧
+      ({ witZeroed with rows := witZeroed.rows.pop } : Problem).hessOnes = #[-1 / 2] := by
+  refine ⟨?_, ?_, ?_, ?_⟩ <;> decide +kernel
+
+/-- non-vacuity of `C08_in_bounds_after_filters` + `C08_smoothing_filter_preserves_bounds`: the harness' smoothing filter
+    (1/4, 1/2, 1/4) as inter-iteration filter (every sub-iteration) and post filter satisfies `Filters.Preserve` -/
+example (ny nx : Nat) (ub : Rat) (hub : 0 ≤ ub) :
+    Filters.Preserve { interInterval := 1, inter := some (sepConvYX ny nx (1 / 4) (1 / 2) (1 / 4)),
+                       post := some (sepConvYX ny nx (1 / 4) (1 / 2) (1 / 4)) } ub := by
+  constructor <;>
+  · intro g hg img himg
+    simp only [Option.some.injEq] at hg
+    subst hg
+    exact sepConvYX_inBox ny nx _ _ _ ub (by norm_num) (by norm_num) (by norm_num) (by norm_num) hub img himg
+
+/-- non-vacuity of `C08_restart_eq_saved_denominator`: the quadratic-prior witness, resume after 1 with the saved denominator -/
+example : setUpFile witParams witObjPrior ((1 : Nat) + 1 : Int) witChars (.image witChars [0, 1])
+      (loop witParams witObjPrior 1 1 ⟨[5, 1], [0, 1], 1⟩).image
+    = some ((loop witParams witObjPrior 1 1 ⟨[5, 1], [0, 1], 1⟩).image, [0, 1]) :=
+  (C08_restart_eq_saved_denominator witParams witObjPrior [5, 1] [5, 1] [0, 1] 1 (le_refl _)
+    (by simp [setUp, precomputeDenominator, witParams, witObjPrior]) rfl (fun _ _ _ _ => rfl) (Or.inl rfl)
+    witChars witChars C08_same_characteristics_examples.1).1
 
 end StirVerif.C08
